@@ -121,6 +121,9 @@ func applyPart(c *CfgCore, p *Part, owner int) {
 	if p.TU != nil {
 		c.TU = buildTU(*p.TU)
 	}
+	if p.Chain > 0 {
+		c.Chain = buildChain(p.Chain, int(p.ID))
+	}
 	if p.Held != nil {
 		h := buildHeld(*p.Held)
 		if c.HeldP == nil {
